@@ -85,6 +85,7 @@ class Ref:
         self.obs = []            # dict(expr, state, handles, export)
         self.subs = []           # dict(obs, ok, unsub)
         self.cutoffs = {}        # handle -> cutoff string
+        self.experts = {}        # handle of an expert node -> dict(mode, static=[(child handle, cb)], ctrl=[...], ok)
         self.memos = []          # functions memoised at top level (captured bindfn with one template)
         self.dynamic_memos = False   # some closure calls weak_memoize_fn itself: indices are not static
 
@@ -118,6 +119,27 @@ class Ref:
             v = self.eval(lhs, store, depth + 1)
             body, r = f["templates"][as_int(v) % len(f["templates"])]
             return self.eval(self.instantiate(v, body, r, env), store, depth + 1)
+        if k == "expert":
+            ex = self.experts[e[1]]
+            if not ex["ok"]:
+                raise Impure("expert node rewired in a way the reference does not follow")
+            total = 0
+            deps = list(ex["static"])
+            # a candidate the reference cannot follow (a node that a bind may invalidate): once the expert node
+            # has depended on it while invalid it is invalid for good, which the reference does not track
+            if any(self.handles[h][0] == "unknown" for h, _ in ex["static"]):
+                raise Impure("a dependency is a node the reference does not track")
+            for c in ex["ctrl"]:
+                if any(self.handles[h][0] == "unknown" for h in c["hs"]) or any(self.handles[h][0] == "unknown" for h, _ in c["extra"]):
+                    raise Impure("a possible dependency is a node the reference does not track")
+            for c in ex["ctrl"]:
+                v = self.eval(self.handles[c["sel"]], store, depth + 1)
+                deps.append((c["hs"][as_int(v) % len(c["hs"])], c["cb"]))
+                deps.extend(c["extra"])
+            for (h, cb) in deps:
+                if ex["mode"] == 1 or cb:
+                    total += as_int(self.eval(self.handles[h], store, depth + 1))
+            return total
         if k == "unknown":
             raise Impure("expression not tracked")
         raise ValueError(k)
@@ -175,7 +197,18 @@ class Ref:
             H.append(("var", len(self.store) - 1))
         elif k == "const":
             H.append(("const", op[1]))
+        elif k == "expert":
+            self.experts[len(H)] = dict(mode=op[1], static=[], ctrl=[], ok=True)
+            H.append(("expert", len(H)))
+        elif k == "adddep":
+            if op[1] in self.experts:
+                self.experts[op[1]]["static"].append((op[2], op[4]))
+        elif k in ("rmdep", "makestale", "invalidateexpert"):
+            if op[1] in self.experts:
+                self.experts[op[1]]["ok"] = False
         elif k == "map":
+            for e in op[2]:
+                self.note_effect(e, op[3])
             H.append(("map", op[1], 0, [H[a] for a in op[3]]))
         elif k == "mapref":
             H.append(("mapref", op[1], H[op[2]]))
@@ -240,6 +273,24 @@ class Ref:
                 elif o["state"] == "disallowed":
                     o["state"] = "unlinked"
         return op
+
+    def note_effect(self, e, args):
+        """effects of a top-level map closure that rewire an expert node (the closure's first input selects)"""
+        if e[0] == "swapdep":
+            ex = self.experts.get(int(e[1]))
+            if ex is not None:
+                ex["ctrl"].append(dict(sel=args[0], hs=[int(x) for x in e[4].split(",")], cb=e[3] == "1", extra=[]))
+        elif e[0] == "adddep":
+            # [rmdep:E:s adddep:E:h:s:cb] in one closure: the dependency is simply there after every run
+            ex = self.experts.get(int(e[1]))
+            if ex is not None and ex["ctrl"]:
+                ex["ctrl"][-1]["extra"].append((int(e[2]), e[4] == "1"))
+            elif ex is not None:
+                ex["ok"] = False
+        elif e[0] == "invalidate":
+            ex = self.experts.get(int(e[1]))
+            if ex is not None:
+                ex["ok"] = False
 
     def capture(self, f):
         def op_(o):
